@@ -7,7 +7,7 @@ echo "# Seeded changes vs checks (tools/sweep_seeded.sh, repo $(git -C /repo rev
 echo >> $out
 echo "| change | property | check exit | violations | first fingerprint |" >> $out
 echo "|---|---|---|---|---|" >> $out
-for d in seeded/C*-m*/; do
+for d in /verif/seeded/C*-m*/; do
   id=$(basename $d); prop=${id%%-*}
   git -C /repo diff --quiet || { echo "/repo not clean"; exit 2; }
   if ! git -C /repo apply --check $d/patch.diff 2>/dev/null; then echo "| $id | $prop | - | - | patch does not apply to HEAD |" >> $out; continue; fi
